@@ -78,6 +78,15 @@ VALUE_CASES = [
   ('known-prefix-token', 'table:formula', 'oooc', 'http://openoffice.org/2004/calc', 'oooc:sum'),
   ('own-prefix-for-known-namespace', 'table:formula', 'calc', OF, 'calc:=SUM([.A1])'),
   ('foreign-namespace', 'table:formula', 'msoxl', 'http://schemas.microsoft.com/office/excel/formula', 'msoxl:=SUM(A1)'),
+  # every other attribute whose value may start with a namespace prefix (the attributes bound to cnv_formula), each with a prefix
+  # of its own that nothing else in the document uses, so that only this attribute can have caused the declaration
+  ('table-condition', 'table:condition', 'chart', 'urn:oasis:names:tc:opendocument:xmlns:chart:1.0', 'chart:cell-content()=1'),
+  ('table-expression', 'table:expression', 'dr3d', 'urn:oasis:names:tc:opendocument:xmlns:dr3d:1.0', 'dr3d:x+1'),
+  ('table-algorithm', 'table:algorithm', 'form', 'urn:oasis:names:tc:opendocument:xmlns:form:1.0', 'form:alg'),
+  ('text-condition', 'text:condition', 'anim', 'urn:oasis:names:tc:opendocument:xmlns:animation:1.0', 'anim:page>1'),
+  ('text-formula', 'text:formula', 'smil', 'urn:oasis:names:tc:opendocument:xmlns:smil-compatible:1.0', 'smil:a+b'),
+  ('script-language', 'script:language', 'presentation', 'urn:oasis:names:tc:opendocument:xmlns:presentation:1.0', 'presentation:Basic'),
+  ('script-event-name', 'script:event-name', 'db', 'urn:oasis:names:tc:opendocument:xmlns:database:1.0', 'db:load'),
 ]
 
 def find_attr(t, local):
@@ -96,7 +105,9 @@ def value_prefix_results():
     for tag, attr, pfx, uri, formula in VALUE_CASES:
         body = ('<table:table table:name="T"><table:table-column/><table:table-row><table:table-cell %s="%s"><text:p>1</text:p>'
                 '</table:table-cell></table:table-row></table:table>') % (attr, P.xml_attr(formula))
-        doc = load(io.BytesIO(P.simple_package(body, extra_ns={pfx: uri})))
+        ens = {pfx: uri} if pfx not in P.STD else {}
+        if attr.split(':')[0] == 'script': ens['script'] = 'urn:oasis:names:tc:opendocument:xmlns:script:1.0'
+        doc = load(io.BytesIO(P.simple_package(body, extra_ns=ens)))
         data = doc.contentxml()
         tree = X.expat_parse(data)
         val = find_attr(tree[1], attr.split(':')[1]) if tree[0] == 'ok' else None
